@@ -13,7 +13,11 @@ namespace {
       // value number v for a binding of parameter p: two ordinary expressions, the parameter itself (an identity binding is a binding
       // like any other: it replaces an earlier one) and another parameter of the same mapping
       const ipr::Expr* value(unsigned p, unsigned v) const { return v == 0 ? V[0] : v == 1 ? V[2] : v == 2 ? static_cast<const ipr::Expr*>(P[p]) : static_cast<const ipr::Expr*>(P[(p + 1) % 3]); }
+      // parameters of a sibling mapping at the same nesting level: same (level, position) as P[0] and P[1], different nodes
+      impl::Mapping* sibling; const ipr::Parameter* Q[2];
       World() {
+         sibling = lx.make_mapping(*unit.global_region(), Mapping_level{ 1 });
+         Q[0] = sibling->param(lx.get_identifier(u8"a"), lx.int_type()); Q[1] = sibling->param(lx.get_identifier(u8"b"), lx.int_type());
          map = lx.make_mapping(*unit.global_region(), Mapping_level{ 1 });
          P[0] = map->param(lx.get_identifier(u8"a"), lx.int_type());
          P[1] = map->param(lx.get_identifier(u8"b"), lx.int_type());
@@ -38,21 +42,24 @@ extern "C" void h_elementary(void) {
 extern "C" void h_general(void) {
    World* w = new World;
    impl::General_substitution* g = w->lx.make_general_substitution();
-   const ipr::Expr* last[3] = { nullptr, nullptr, nullptr };
+   const ipr::Expr* last[5] = { nullptr, nullptr, nullptr, nullptr, nullptr };
+   const ipr::Parameter* all[5] = { w->P[0], w->P[1], w->P[2], w->Q[0], w->Q[1] };      // parameters of two parameter lists at the same level
    // the empty substitution is the identity
-   for (int q = 0; q < 3; ++q) vp_assert(&(*g)[*w->P[q]] == w->P[q], 4);
+   for (int q = 0; q < 5; ++q) vp_assert(&(*g)[*all[q]] == all[q], 4);
    for (int k = 0; k < C16_K; ++k) {
-      unsigned p = vp_pick(3), v = vp_pick(4);
-      { const ipr::Expr& before = (*g)[*w->P[p]]; vp_assert(last[p] ? &before == last[p] : &before == w->P[p], 8); }     // looked up immediately before ...
-      impl::General_substitution& r = g->subst(*w->P[p], *w->value(p, v));
+      unsigned p = vp_pick(4), v = vp_pick(4);                                             // P[0], P[1], P[2] or the sibling's first parameter
+      unsigned pi = p < 3 ? p : 3;
+      const ipr::Expr* val = p < 3 ? w->value(p, v) : (v == 2 ? static_cast<const ipr::Expr*>(all[3]) : v == 3 ? static_cast<const ipr::Expr*>(all[0]) : w->value(0, v));
+      { const ipr::Expr& before = (*g)[*all[pi]]; vp_assert(last[pi] ? &before == last[pi] : &before == all[pi], 8); }     // looked up immediately before ...
+      impl::General_substitution& r = g->subst(*all[pi], *val);
       vp_assert(&r == g, 5);
-      last[p] = w->value(p, v);
-      vp_assert(&(*g)[*w->P[p]] == last[p], 9);                                                                                   // ... and immediately after the (re)binding
+      last[pi] = val;
+      vp_assert(&(*g)[*all[pi]] == last[pi], 9);                                                                                   // ... and immediately after the (re)binding
       const ipr::Substitution& s = *g;
-      for (int q = 0; q < 3; ++q) {
-         const ipr::Expr& e = s[*w->P[q]];
+      for (int q = 0; q < 5; ++q) {
+         const ipr::Expr& e = s[*all[q]];
          if (last[q]) vp_assert(&e == last[q], 6);                // latest binding wins
-         else vp_assert(&e == w->P[q], 7);                        // unbound: unchanged
+         else vp_assert(&e == all[q], 7);                         // unbound: unchanged (also a parameter with the level and position of a bound one)
       }
    }
    vp_done();
